@@ -218,6 +218,19 @@ class Outcome:
         else:
             self.violations.append((key, replay, what))
 
+    def _structural_replay(self, n, key, what):
+        """violations that are facts about the macro's own code (E3 structural obligations) or that exceeded the native replay budget:
+        the replay re-runs the deciding check and greps for the same role key"""
+        import re
+        d = os.path.join(VERIF, "replays", self.pid, "recheck-%02d-%s" % (n, re.sub(r"[^A-Za-z0-9_.-]+", "_", key)[:60]))
+        os.makedirs(d, exist_ok=True)
+        json.dump({"property": self.pid, "key": key, "what": what}, open(os.path.join(d, "case.json"), "w"), indent=1)
+        open(os.path.join(d, "run.sh"), "w").write(
+            "#!/bin/sh\n# re-runs the deciding check against /repo's current tree; exit 0 = the same violation is reported again\n"
+            "cd \"$(dirname \"$0\")/../../..\" && ./check %s quick 2>/dev/null | grep -F -q -- %s\n" % (self.pid, json.dumps("key=" + key)))
+        os.chmod(os.path.join(d, "run.sh"), 0o755)
+        return d
+
     def finish(self):
         for key, what in self.known:
             print("KNOWN-FINDING: property=%s %s: %s" % (self.pid, key, what))
@@ -225,7 +238,9 @@ class Outcome:
             print("INCONCLUSIVE property=%s %s" % (self.pid, m))
         for m in self.broken:
             print("BROKEN-CHECK property=%s %s" % (self.pid, m))
-        for key, replay, what in self.violations:
+        for n, (key, replay, what) in enumerate(self.violations):
+            if replay in ("-", None, ""):
+                replay = self._structural_replay(n, key, what)
             print("VIOLATION property=%s replay=%s" % (self.pid, replay))
             print("  DETAIL key=%s: %s" % (key, what))
         sys.stdout.flush()
